@@ -18,9 +18,10 @@ import (
 type Scenario struct {
 	Hidden    bool
 	Policy    string // server's client verification: nil | skip | store | authkeys | both
-	ServerAdv string // ok | wrongkey | othername | expired | notyet | wrongtype | otherroot | selfsigned
+	ServerAdv string // ok | wrongkey | othername | othertype | expired | notyet | wrongtype | otherroot | selfsigned
 	ClientAdv string // ok | wrongkey | expired | otherroot | selfsigned | wrongtype
 	KeyListed bool   // the client's certified key is in the server's authorized-key set
+	Revoked   bool   // … it was, and has been removed again before the handshake
 	NoName    bool   // the client does not ask for a particular server name
 }
 
@@ -64,6 +65,9 @@ func leafFor(adv string, name string) (*certs.Certificate, *certs.Certificate, *
 		held = keys.GenerateNewX25519KeyPair()
 	case "othername":
 		leaf = p.Leaf(certKey.Public, certs.RawStringName("somebody-else"))
+	case "othertype":
+		// the expected label under another name type
+		leaf = p.Leaf(certKey.Public, certs.DNSName(name))
 	case "expired":
 		leaf = p.LeafAt(certKey.Public, time.Now(), time.Second, n)
 		clock = time.Now().Add(time.Hour)
@@ -89,8 +93,11 @@ func leafFor(adv string, name string) (*certs.Certificate, *certs.Certificate, *
 func Build(sc Scenario, addr int) (*tnet.Srv, *tnet.Cli) {
 	sv, kemPub, cv := BuildServer(sc)
 	cl := BuildClient(sc, addr, kemPub)
-	if sc.KeyListed && cv != nil {
+	if (sc.KeyListed || sc.Revoked) && cv != nil {
 		cv.AuthKeys.AddKey(cl.CertKey)
+	}
+	if sc.Revoked && cv != nil {
+		cv.AuthKeys.RemoveKey(cl.CertKey)
 	}
 	return sv, cl
 }
